@@ -182,11 +182,11 @@ func genC13Case(t *rapid.T, rec *stats.Rec, known bool) c13Case {
 
 // c13Outcome is what running a case produced.
 type c13Outcome struct {
-	Fail     string // "" = the property held
-	Rejected bool   // the OS rejected the name; nothing was created
-	FastPath int    // commits that took the in-place patch path (per store, summed)
+	Fail                 string // "" = the property held
+	Rejected             bool   // the OS rejected the name; nothing was created
+	FastPath             int    // commits that took the in-place patch path (per store, summed)
 	FastPathOnNamedField bool
-	Labels   []string
+	Labels               []string
 }
 
 // runC13 executes the case against the real transaction and checks the oracle after every commit.
